@@ -224,6 +224,22 @@ class Analysis:
             raws = [raw.get(ix) for ix in ms]
             if len(set(raws)) != len(raws):
                 return "raw"
+            # the known finding: names that differ only in what label sanitising removes or transliterates (non-identifier characters,
+            # accents with unicode conversion on, the '_' appended to reserved words, the spelled-out leading digit).  Names that are
+            # distinct identifiers already (Billing_Shipping / BillingShipping) must stay distinct.
+            def canon(r):
+                r = str(r)
+                if self.opts.get("convert_unicode", True):
+                    try:
+                        from unidecode import unidecode
+                        r = unidecode(r)
+                    except Exception:
+                        pass
+                r = re.sub(r"\W", "", r)
+                return r.rstrip("_")
+            canons = {canon(r) for r in raws}
+            if len(canons) > 1 and not any(c[:1].isdigit() for c in canons):
+                return "distinct-identifiers-collapsed"
         return "sanitised"
 
     def dup_field_kind(self, cls_name, fname):
@@ -478,8 +494,8 @@ def run_all(models, opts, props=("C01", "C02", "C03", "C04")):
         if "C03" in props or True:
             try:
                 a.c03()
-            except SyntaxError:
-                pass  # already reported by load()
+            except (SyntaxError, ValueError):
+                pass  # text that does not parse / is not encodable source: already reported by load()
         if not loaded:
             return a
         if not a.class_maps():
